@@ -5,28 +5,34 @@ EXTENDS ZogExec, SequencesExt
 CONSTANTS Tier   \* "quick" | "thorough"
 
 Thorough == Tier = "thorough"
+Trap     == Tier = "trap"
+Sel(t, q, th) == CASE Tier = "trap" -> t [] Tier = "quick" -> q [] OTHER -> th
 
-TestSets == IF Thorough THEN {<<>>, <<T("gte", 2, "gte")>>, <<T("gte", 2, "gte"), UT("eq", 3, "u1")>>}
-            ELSE {<<T("gte", 2, "gte"), UT("eq", 3, "u1")>>}
-PTSets   == IF Thorough THEN {<<>>, <<"ok">>, <<"ok", "err", "ok">>} ELSE {<<"ok", "err">>}
-Defaults == IF Thorough THEN {None, 1, 3} ELSE {None, 1}
+TwoTests == <<T("gte", 2, "gte"), UT("eq", 3, "u1")>>
+TestSets == Sel({TwoTests}, {TwoTests}, {<<>>, <<T("gte", 2, "gte")>>, TwoTests})
+PTSets   == Sel({<<"ok", "err">>}, {<<"ok", "err">>}, {<<>>, <<"ok">>, <<"ok", "err", "ok">>})
+Defaults == Sel({None}, {None, 1}, {None, 1, 3})
 
 PrimVariants ==
   {Prim("int", r, d, c, ts, ps) :
-     r \in BOOLEAN, d \in Defaults, c \in {None, 5}, ts \in TestSets, ps \in PTSets}
+     r \in Sel({TRUE}, BOOLEAN, BOOLEAN), d \in Defaults, c \in {None, 5}, ts \in TestSets, ps \in PTSets}
 
 SmallPrims ==
   {Prim("int", r, None, c, ts, <<>>) : r \in BOOLEAN, c \in {None, 5}, ts \in {<<>>, <<T("gte", 2, "gte")>>}}
+ElemPrims == {Prim("int", FALSE, None, c, <<T("gte", 2, "gte")>>, <<>>) : c \in {None, 5}}
+SliceTests == <<T("min", 2, "min"), UT("const", 0, "sl")>>
 
 SliceVariants ==
   {Slice(e, r, d, ts, ps) :
-     e \in (IF Thorough THEN SmallPrims ELSE {Prim("int", FALSE, None, c, <<T("gte", 2, "gte")>>, <<>>) : c \in {None, 5}}),
-     r \in BOOLEAN, d \in {None, 2},
-     ts \in (IF Thorough THEN {<<>>, <<T("min", 2, "min"), UT("const", 0, "sl")>>} ELSE {<<T("min", 2, "min"), UT("const", 0, "sl")>>}), ps \in {<<"ok">>}}
+     e \in Sel({Prim("int", FALSE, None, 5, <<T("gte", 2, "gte")>>, <<>>)}, ElemPrims, SmallPrims),
+     r \in Sel({TRUE}, BOOLEAN, BOOLEAN), d \in Sel({None}, {None, 2}, {None, 2}),
+     ts \in Sel({<<>>, SliceTests}, {SliceTests}, {<<>>, SliceTests}), ps \in {<<"ok">>}}
 
-PtrVariants == {Ptr(e, nn) : e \in (IF Thorough THEN SmallPrims ELSE {Prim("int", TRUE, None, c, <<T("gte", 2, "gte")>>, <<>>) : c \in {None, 5}}), nn \in BOOLEAN}
+PtrVariants == {Ptr(e, nn) : e \in Sel({Prim("int", TRUE, None, None, <<T("gte", 2, "gte")>>, <<>>)},
+                                        {Prim("int", TRUE, None, c, <<T("gte", 2, "gte")>>, <<>>) : c \in {None, 5}}, SmallPrims),
+                             nn \in Sel({TRUE}, BOOLEAN, BOOLEAN)}
 
-CustomVariants == {Custom(UT("gte", 2, "cust"))}
+CustomVariants == Sel({}, {Custom(UT("gte", 2, "cust"))}, {Custom(UT("gte", 2, "cust"))})
 
 Inner == Struct(<<Kid("x", NoTags, Prim("int", TRUE, None, None, <<T("gte", 2, "gte")>>, <<>>))>>,
                 <<UT("const", 0, "st1"), UT("const", 0, "st2")>>, <<"ok">>)
@@ -34,9 +40,15 @@ StructVariants == {Inner, Ptr(Inner, TRUE), Slice(Inner, FALSE, None, <<>>, <<>>
 
 FieldVariants == PrimVariants \cup SliceVariants \cup PtrVariants \cup CustomVariants \cup StructVariants
 
-LeafInputs == {Missing, Nil, Blank, Bad, Val(0), Val(1), Val(3)}
-ListInputs == {Missing, Nil, Val(3), List(<<>>), List(<<Val(1), Val(3)>>), List(<<Val(3), Val(1)>>), List(<<Bad, Val(3)>>)}
-InnerInputs == {Missing, Val(1), Map(<<Ent("x", Val(1))>>), Map(<<Ent("x", Val(3))>>), Map(<<>>)}
+LeafInputs == Sel({Missing, Bad, Val(1), Val(3)},
+                  {Missing, Blank, Bad, Val(0), Val(1), Val(3)},
+                  {Missing, Nil, Blank, Empty, Bad, Val(0), Val(1), Val(3), SVal(3)})
+ListInputs == Sel({Missing, List(<<Val(1), Val(3)>>)},
+                  {Missing, Val(3), List(<<>>), List(<<Val(1), Val(3)>>), List(<<Bad, Val(3)>>)},
+                  {Missing, Nil, Blank, Val(3), List(<<>>), List(<<Val(1), Val(3)>>), List(<<Val(3), Val(1)>>), List(<<Bad, Val(3)>>)})
+InnerInputs == Sel({Map(<<Ent("x", Val(1))>>), Map(<<Ent("x", Val(3))>>)},
+                   {Missing, Val(1), Map(<<Ent("x", Val(1))>>), Map(<<Ent("x", Val(3))>>), Map(<<>>)},
+                   {Missing, Val(1), Map(<<Ent("x", Val(1))>>), Map(<<Ent("x", Val(3))>>), Map(<<>>)})
 
 RECURSIVE ParseInputs(_)
 ParseInputs(node) ==
@@ -61,7 +73,8 @@ ValueInputs(node) ==
 
 InputsFor(node, mode) == IF mode = "parse" THEN ParseInputs(node) ELSE ValueInputs(node)
 
-StructTests == {<<>>, <<UT("const", 0, "st1"), UT("const", 0, "st2")>>}
+StructTests == Sel({<<UT("const", 0, "st1"), UT("const", 0, "st2")>>}, {<<UT("const", 0, "st1"), UT("const", 0, "st2")>>},
+                   {<<>>, <<UT("const", 0, "st1"), UT("const", 0, "st2")>>, <<UT("const", 1, "st1")>>})
 
 MkCase(mode, f1, f2, i1, i2, sts) ==
   [id |-> "mc", mode |-> mode, fe |-> "map",
